@@ -1,7 +1,7 @@
 (* Correspondence of Model/Link.v with the real S2M / M2S dispatchers (driver "link") and with the
    real S2mClient (driver "s2mclient"). *)
 From NW Require Import Base.Bytes Model.SchemaTypes Gen.Schema Model.Codec Model.MsgInfo Model.Framing Model.Ids
-     Model.Server Model.Link Conf.CodecConf Conf.ServerConf.
+     Model.Server Model.Link Model.LinkConc Conf.CodecConf Conf.ServerConf.
 
 Record lobs := { lo_frames : list frame; lo_closed : bool; lo_mod : list modcall; lo_routed : list (list str * list N) }.
 
@@ -77,3 +77,10 @@ Definition client_conf (tag : N) (declared : bool) (max_message max_payload id :
              else if tag =? 2 then (match c_event declared r with REventOk => RValid | x => x end)
              else c_spp declared r in
   cresult_eqb res observed.
+
+(* ---------- several requests in flight on one S2M link (Model/LinkConc.v) ---------- *)
+(* evs: the requests in the order they were written to the link and the modulator's answers in the order they were
+   released; wire: every frame the dispatcher wrote back after the handshake, in order *)
+Definition conc_conf (cfg : lcfg) (hb : N) (evs : list lev) (wire : list frame) (closed : bool) : bool :=
+  let s := lc_run cfg hb evs in
+  frames_eqb (lframes (lc_wire s)) wire && Bool.eqb (lc_closed s) closed.
